@@ -212,7 +212,10 @@ func (vc *VC) obligeClause(kind, label, site string, guard Term, env *Env, cl *C
 			vc.specError(cl, err)
 			return
 		}
-		vc.oblige(kind, label, psite, and(guard, h), g, src)
+		if o := vc.oblige(kind, label, psite, and(guard, h), g, src); o != nil && len(vc.qfacts) > 0 {
+			// ground goal: offer the quantified assumptions at the integer locals
+			vc.addInstances(o, vc.witnessCandidates(nil, env))
+		}
 	}
 }
 
